@@ -1,6 +1,6 @@
 CONSTANTS
  P0Choices = {1,2,3,4,5}
- P1Choices = {1,2,3}
+ P1Choices = {1,2,3,4}
  TsPatterns = {"inc","dec","mix"}
  StatModes = {"none","base","tix","minonly","maxonly"}
  TimeChoices = {1,2,3,4,5}
@@ -8,6 +8,7 @@ CONSTANTS
  DevPruneOnBase = FALSE
  DevTimeMinOnly = FALSE
  DevLimitPerSegment = FALSE
+ DevMaxOffsetAcrossPartitions = FALSE
 INIT Init
 NEXT Next
 INVARIANTS C36_ResultEqualsDirect C36_NoMatchingRowSkipped StatsSound
